@@ -8,6 +8,42 @@
 // recombine, forge opaque state and answer in place of a server). time.Now() is the bubble's clock, so
 // challenge (5 min) and token TTLs are crossed with simrt.TimeSleep.
 //
+// Clocks and the clock-jump fault (suspend/resume, VM pause, wall-clock step). Every time-dependent clause of
+// the statement is stamped and checked by ONE party: the server stamps and checks challenge state and bearer
+// tokens (handshake package, through its own test seam `nowFn`), the client stamps and checks the entries of
+// its token store (auth/client.go, time.Now / time.Since). Each SERVER therefore runs on a clock of its own
+// (bubble clock + per-server offset, installed through nowFn by two files the build overlay ADDS to /repo's
+// packages, see props.py: build with -overlay .build/overlay/C19/overlay-full.json); the clients read the
+// bubble's clock (auth/client.go calls package time directly, so they share one clock). Drawn faults:
+//   - step "clock jump": ONE party (server i, or the client side) jumps forward between two steps, by
+//     lifetime-1s / lifetime+1s / 2*lifetime for a drawn lifetime (5 min challenge lifetime, any server's token
+//     TTL, any client's non-zero token TTL) — i.e. between token issue and token use, between a recorded
+//     challenge and its replay; a server jump adds to its offset, a client-side jump lets the bubble's clock
+//     pass and subtracts the amount from every server's offset (their clocks stand still);
+//   - per call (1 in 5, drawn first = separate stratum): before every round trip >= 2 of AuthenticatedDo the
+//     target server OR the client side may jump (same amounts, lifetimes of the two parties) — between the
+//     legs of one handshake, and between the token's issue (leg 2) and the request proper (leg 3).
+//
+// Judging: all issue stamps and "now" of the server clause are read on the serving server's clock (the
+// enforcer), so a challenge or token is never accepted after its lifetime on that clock whatever the bubble
+// (client) clock says, and attack timing ("expiry-1s", ...) sleeps relative to the issuer's clock. Honest
+// side (guards against a vacuous harness, not part of the statement): an untampered call must succeed unless
+// the TARGET SERVER's clock jumped, inside that call, by at least min(5 min, its token TTL), or the client
+// still holds, for this hostname, the entry it stored at the end of such an excused call (its state is then a
+// product of the fault; the excuse ends when a call opens with a fresh challenge or an un-jumped call
+// handshakes successfully); client-side jumps never excuse anything (the client enforces its TTL only when it
+// looks a token up at the start of a call). The safety oracles stay on for excused calls.
+//
+// Audit (observer effect / warm-up). Observation: the oracles call nothing in the code under test — they read
+// the harness's own tables of what went over the wire and verify with core/crypto on harness-held keys;
+// ClientPeerIDAuth.HasToken (whose lookup deletes an expired entry) is deliberately never called; reading
+// ServerPeerIDAuth.HmacKey is a field read. Warm-up: the first version always began with an untampered
+// c0->s0 call, so s0's lazily drawn secret and MAC pool and c0's token store were always first used on the
+// happy path (s1, c1, c2 were not warmed). Now drawn: 1 run in 4 is a COLD START without that call — the first
+// request a server ever serves and the first call a client ever makes may be the adversary's (attacks that need
+// recorded material and find none do nothing; no oracle needs the warm-up). Probes "cold-start",
+// "first-contact-adversarial".
+//
 // Oracles (all derived from the statement, evaluated by a reference model that shares no code with the
 // handshake package — it keeps a table of every challenge and every token each server has put on the wire,
 // builds the signed data from the public spec and verifies signatures with core/crypto):
@@ -78,16 +114,43 @@
 //	M11 hs/client.go server ID taken from the latest public-key parameter   run 275  client/unproven-server/signed-by-another-key (forge
 //	    while the first key keeps verifying                                          variant v6 added for it; before: run 2798 via inject)
 //
+// OBSERVATION on the unchanged tree, found by the clock-jump fault (probe
+// "observed-client-locked-out-by-empty-stored-token"; not a violation: C19's statement is pure safety and no
+// unproven identity is reported anywhere in this history; first seen at seed 1 run 91 of the version that still
+// had it as an oracle). Server s0 with TokenTTL 1 h, client c0 = ClientPeerIDAuth{TokenTTL: 0}, no adversary:
+//  1. c0.AuthenticatedDo, leg 1 of the client-initiated handshake (challenge-server, public-key): 401 with
+//     WWW-Authenticate{challenge-client, public-key, sig, opaque}; the client verifies s0's signature.
+//  2. s0's clock jumps forward by >= the 5 min challenge lifetime before leg 2 (the same thing, for the server,
+//     as the client being suspended that long between the legs).
+//  3. leg 2 (opaque, sig, request body): the challenge has expired on the server's clock: 401 with a fresh
+//     WWW-Authenticate and NO Authentication-Info. Correct.
+//  4. auth/client.go runHandshake ignores the error of hs.ParseHeader (errMissingChallenge); handshake/client.go
+//     Run() in state WaitingForBearer writes a bearer parameter with an empty value (writeParam drops empty
+//     values) and goes to Done.
+//  5. AuthenticatedDo returns (s0's ID, the 401 response, err == nil) and stores
+//     tokenInfo{token: "libp2p-PeerID ", peerID: s0} for the hostname.
+//  6. the next call c0 -> s0, same Host, no fault, every lifetime respected: doWithToken sends
+//     "Authorization: libp2p-PeerID "; the server finds no parameter (errInvalidHeader): 400.
+//  7. 400 is not 401, so the client takes the token for valid and returns (s0, the 400 response, nil); Next
+//     never sees the client. Every later call repeats 6-7 for as long as the client's own TokenTTL keeps the
+//     entry — for ever with the zero value. (Any 401 on leg 2 does it: server secret rotated between the legs,
+//     or an adversary stripping the second Authorization.)
+//
 // Observations on the unchanged tree (not violations under the readings above):
 //   - a signature parameter with 1 or 16 bytes appended is accepted when the signer's key is ECDSA
 //     (core/crypto's ECDSA Verify ignores what follows the DER structure); the strict reading of "any
 //     alteration of the signature is rejected" does not hold for that key type, the identity is still proven;
 //   - a bearer token is accepted under every hostname of the server that issued it (DESIGN.md C19);
-//   - client: when the last response of a handshake carries no bearer (e.g. stripped), AuthenticatedDo returns
-//     the 401 with a nil error and the proven server ID and stores an empty token ("libp2p-PeerID "); later
-//     calls send it, get 400 (not 401) and return the cached ID with a nil error. The ID was proven in the
-//     earlier handshake, so this is outside the statement; it is why the token path of the client oracle is
-//     keyed on "no fresh challenge in the first request" rather than on the presence of a bearer parameter.
+//   - client: the same empty stored token arises when the adversary strips the second Authorization; there the
+//     client's state counts as adversary-tainted and nothing is required of later calls. The server ID the
+//     client keeps returning was proven in the earlier handshake, which is why the token path of the client
+//     oracle is keyed on "no fresh challenge in the first request", not on the presence of a bearer parameter.
+//
+// Clock sensitivity (same procedure): K1 token expiry check reads time.Now instead of nowFn (= another
+// party's clock): run 2 honest/status (client-side jump made the server refuse a live token), run 115
+// server/unproven-peer/expired-token; K2 same for the challenge check: run 2 honest/call-failed, run 13
+// honest/status, run 29 expired-challenge; K3 token stamped with time.Now: run 25 honest/status, run 142
+// expired-token.
 //
 // C19_TRACE=1 prints the decoded trace of every run to stderr (debugging aid).
 package c19
@@ -217,6 +280,19 @@ type serverSim struct {
 	chals map[string]*chalRec
 	toks  map[string]*tokRec
 	next  []peer.ID // Next invocations of the ServeHTTP call in progress
+
+	// offset: this server's clock is the bubble's clock plus offset (the clients read the bubble's clock). A
+	// forward jump of the server's clock adds to it; a forward jump of the client side lets the bubble's
+	// clock pass and subtracts the same amount here, so that the server's clock stands still meanwhile.
+	offset   time.Duration
+	contacts int // requests served so far
+}
+
+// now is the server's own clock: every stamp and every expiry the server enforces is judged on it.
+func (s *serverSim) now() time.Time { return time.Now().Add(s.offset) }
+
+func (s *serverSim) clock() string {
+	return fmt.Sprintf("%v", (simrt.Now() + s.offset).Round(time.Nanosecond))
 }
 
 type clientSim struct {
@@ -225,6 +301,7 @@ type clientSim struct {
 	ttl        time.Duration
 	lastProven map[string]peer.ID // hostname -> server identity of the last successful call
 	tainted    map[string]bool    // hostname -> adversary interfered with a call (token store no longer trusted)
+	faulted    map[string]bool    // hostname -> the token entry the client may hold was stored by a call excused for a clock jump
 }
 
 type exchange struct {
@@ -244,6 +321,9 @@ type callCtx struct {
 	resps []http.Header
 	exs   []*exchange
 	notes []string
+
+	timeFaults bool          // clock jumps may be drawn between the round trips of this call
+	srvJumped  time.Duration // how far the target server's clock jumped between the round trips of this call
 }
 
 type world struct {
@@ -264,9 +344,10 @@ type world struct {
 	hdrs  []srvHdr
 	seen  map[string][]string // parameter name -> values observed on the wire, in order
 
-	cur *callCtx
+	cur    *callCtx
+	curSrv *serverSim // server whose ServeHTTP is running (selects the clock the handshake package reads)
 
-	legitNext, attacks, tampered int
+	legitNext, attacks, tampered, jumps int
 }
 
 func TestSim(t *testing.T) {
@@ -283,6 +364,15 @@ func run(t *testing.T, tape *simrt.Tape) *common.Outcome {
 				o.Trouble = fmt.Sprintf("harness panic: %v | %s", r, firstLines(string(debug.Stack()), 14))
 			}
 		}()
+		// per-server clocks: the handshake package's nowFn (its own test seam, reached through two files the
+		// build overlay adds, see props.py) reads the clock of the server that is serving
+		httppeeridauth.VerifsimSetServerNow(func() time.Time {
+			if w.curSrv != nil {
+				return w.curSrv.now()
+			}
+			return time.Now()
+		})
+		defer httppeeridauth.VerifsimSetServerNow(nil)
 		w.setup()
 		w.steps()
 		finished = true
@@ -301,7 +391,7 @@ func run(t *testing.T, tape *simrt.Tape) *common.Outcome {
 		}
 	}
 	// non-trivial: at least one proven identity reached Next and the adversary acted at least once
-	o.Nontrivial = w.legitNext >= 1 && w.attacks+w.tampered >= 1
+	o.Nontrivial = w.legitNext >= 1 && w.attacks+w.tampered+w.jumps >= 1
 	if os.Getenv("C19_TRACE") != "" {
 		fmt.Fprintf(os.Stderr, "=== run sig=%s\n%s\n", o.Sig, strings.Join(o.Trace, "\n"))
 	}
@@ -393,7 +483,7 @@ func (w *world) setup() {
 	}
 	nCli := 1 + g.Weighted(3, 2, 1)
 	for i := 0; i < nCli; i++ {
-		c := &clientSim{lastProven: map[string]peer.ID{}, tainted: map[string]bool{}}
+		c := &clientSim{lastProven: map[string]peer.ID{}, tainted: map[string]bool{}, faulted: map[string]bool{}}
 		c.party = w.newParty(fmt.Sprintf("c%d", i), w.drawKT())
 		c.ttl = cliTTL[g.Int(len(cliTTL))]
 		c.auth = &httppeeridauth.ClientPeerIDAuth{PrivKey: c.priv, TokenTTL: c.ttl}
@@ -442,13 +532,26 @@ func (w *world) names(ps []peer.ID) string {
 
 func (w *world) steps() {
 	g := w.g
-	// bootstrap: one honest call so that there is material to attack
-	w.call(w.cli[0], w.srv[0], w.srv[0].hosts[0], 0)
+	// warm start (0, simplest): one honest call first, so that there is material to attack. Cold start: no
+	// bootstrap — the first request a server ever serves (lazy secret, MAC pool) and the first call a client
+	// ever makes (empty token store) may then be the adversary's; attacks that need recorded material and
+	// find none do nothing.
+	if cold := g.Chance(1, 4); cold {
+		w.o.Logf("cold start: no honest bootstrap call")
+		w.o.Probe("cold-start")
+		fmt.Fprintf(&w.sig, "cold;")
+	} else {
+		w.call(w.cli[0], w.srv[0], w.srv[0].hosts[0], 0)
+	}
 	n := g.Range(1, 9)
 	sleeps := []time.Duration{time.Second, 30 * time.Second, 89 * time.Second, 91 * time.Second, 4*time.Minute + 59*time.Second,
 		5*time.Minute + time.Second, 10 * time.Minute, time.Hour, time.Hour + time.Second}
 	for i := 0; i < n; i++ {
-		switch g.Weighted(4, 6, 2, 4) {
+		switch g.Weighted(4, 6, 2, 4, 3) {
+		case 4:
+			// fault: forward jump of ONE party's clock between two steps (between token issue and token
+			// use, between a recorded challenge and its replay, ...)
+			w.jump(g.Int(len(w.srv)+1), w.jumpAmount(nil, nil), "step")
 		case 0:
 			c := w.cli[g.Int(len(w.cli))]
 			s := w.srv[g.Int(len(w.srv))]
@@ -470,6 +573,75 @@ func (w *world) steps() {
 	}
 }
 
+// jumpAmount draws a jump around one of the lifetimes of the statement: lifetime-1s, lifetime+1s, 2*lifetime,
+// for the challenge lifetime, every server's token TTL and every client's (non-zero) token TTL — or, inside a
+// call, those of the two parties of the call.
+func (w *world) jumpAmount(s *serverSim, c *clientSim) time.Duration {
+	lifetimes := []time.Duration{challengeTTL}
+	add := func(d time.Duration) {
+		if d <= 0 {
+			return
+		}
+		for _, x := range lifetimes {
+			if x == d {
+				return
+			}
+		}
+		lifetimes = append(lifetimes, d)
+	}
+	if s != nil {
+		add(s.ttl)
+	} else {
+		for _, x := range w.srv {
+			add(x.ttl)
+		}
+	}
+	if c != nil {
+		add(c.ttl)
+	} else {
+		for _, x := range w.cli {
+			add(x.ttl)
+		}
+	}
+	l := lifetimes[w.g.Int(len(lifetimes))]
+	switch w.g.Int(3) {
+	case 0:
+		return l - time.Second
+	case 1:
+		return l + time.Second
+	}
+	return 2 * l
+}
+
+// jump moves one party's clock forward by d (suspend/resume, VM pause, wall-clock step): who < len(servers)
+// is that server; otherwise the client side (all clients read the bubble's clock: it passes, and every
+// server's offset shrinks by the same amount, i.e. the servers' clocks stand still).
+func (w *world) jump(who int, d time.Duration, where string) string {
+	w.jumps++
+	var name string
+	if who < len(w.srv) {
+		s := w.srv[who]
+		s.offset += d
+		name = s.name
+		w.o.Fault("clock-jump-server")
+	} else {
+		simrt.TimeSleep(d)
+		for _, s := range w.srv {
+			s.offset -= d
+		}
+		name = "clients"
+		w.o.Fault("clock-jump-clients")
+	}
+	var clocks []string
+	for _, s := range w.srv {
+		clocks = append(clocks, s.name+"="+s.clock())
+	}
+	w.o.Logf("CLOCK JUMP %s +%v (%s); clocks now: clients=%v %s", name, d, where, simrt.Now(), strings.Join(clocks, " "))
+	desc := fmt.Sprintf("J%s+%v", name, d)
+	fmt.Fprintf(&w.sig, "%s;", desc)
+	return desc
+}
+
 // ---------------------------------------------------------------------------------------------
 // the wire: delivery to a real server, with recording and the server-side oracle
 
@@ -482,8 +654,14 @@ func (w *world) deliver(s *serverSim, host, authz string, body []byte, origin st
 	}
 	rec := httptest.NewRecorder()
 	s.next = nil
+	if s.contacts == 0 && (strings.HasPrefix(origin, "atk:") || (w.cur != nil && w.cur.mode == 2)) {
+		w.o.Probe("first-contact-adversarial")
+	}
+	s.contacts++
+	w.curSrv = s
 	func() {
 		defer func() {
+			w.curSrv = nil
 			if r := recover(); r != nil {
 				w.o.Violate("C19/panic/server", "ServeHTTP panicked on request %s params{%s}: %v | %s", origin, paramNames(authz), r, firstLines(string(debug.Stack()), 12))
 			}
@@ -491,7 +669,7 @@ func (w *world) deliver(s *serverSim, host, authz string, body []byte, origin st
 		s.auth.ServeHTTP(rec, req)
 	}()
 	ex := &exchange{status: rec.Code, hdr: rec.Header().Clone(), body: rec.Body.Bytes(), srv: s, next: append([]peer.ID(nil), s.next...)}
-	now := time.Now()
+	now := s.now() // the enforcer's clock: issue stamps and expiry are judged on it
 
 	// server-side oracle, before the response's artifacts are recorded (a request cannot be justified by
 	// a credential that only its own response creates)
@@ -502,8 +680,8 @@ func (w *world) deliver(s *serverSim, host, authz string, body []byte, origin st
 			continue
 		}
 		w.o.Violate("C19/server/unproven-peer/"+how,
-			"server %s (Host %q, t=%v) reported peer %s to Next for request %s params{%s}, but the request carries no credential that proves it: %s",
-			s.name, host, simrt.Now(), w.name(p), origin, paramNames(authz), how)
+			"server %s (Host %q, its clock %s) reported peer %s to Next for request %s params{%s}, but the request carries no credential that proves it: %s",
+			s.name, host, s.clock(), w.name(p), origin, paramNames(authz), how)
 	}
 
 	// record what the server put on the wire
@@ -543,7 +721,7 @@ func (w *world) deliver(s *serverSim, host, authz string, body []byte, origin st
 			}
 		}
 	}
-	w.o.Logf("  %s -> %s Host=%s params{%s} t=%v => %d next=%s www{%s} info{%s}", origin, s.name, host, paramNames(authz), simrt.Now(),
+	w.o.Logf("  %s -> %s Host=%s params{%s} t=%s => %d next=%s www{%s} info{%s}", origin, s.name, host, paramNames(authz), s.clock(),
 		ex.status, w.names(ex.next), paramNames(ex.hdr.Get("WWW-Authenticate")), paramNames(ex.hdr.Get("Authentication-Info")))
 	fmt.Fprintf(&w.sig, "%s@%s/%s>%s;", origin, s.name, host, w.names(ex.next))
 	return ex
@@ -702,8 +880,10 @@ func serverSigData(challengeServer string, clientPub []byte, host string) []byte
 
 func (w *world) call(c *clientSim, s *serverSim, host string, mode int) {
 	ctx := &callCtx{cli: c, srv: s, host: host, mode: mode}
+	// fault stratum, drawn per call: clock jumps of one party between the round trips of the handshake
+	ctx.timeFaults = w.g.Chance(1, 5)
 	modeName := []string{"plain", "strip-first", "mitm"}[mode]
-	w.o.Logf("call %s -> %s Host=%s mode=%s t=%v", c.name, s.name, host, modeName, simrt.Now())
+	w.o.Logf("call %s -> %s Host=%s mode=%s clock-jumps=%v t=%v (clock of %s: %s)", c.name, s.name, host, modeName, ctx.timeFaults, simrt.Now(), s.name, s.clock())
 	fmt.Fprintf(&w.sig, "C%s>%s/%s/%d[", c.name, s.name, host, mode)
 	req, err := http.NewRequest("POST", "http://"+host+"/r", bytes.NewReader([]byte("body of "+c.name)))
 	if err != nil {
@@ -782,22 +962,80 @@ func (w *world) call(c *clientSim, s *serverSim, host string, mode int) {
 	if mode == 2 {
 		c.tainted[host] = true
 	}
-	if clean {
-		sawClient := false
-		for _, ex := range ctx.exs {
-			for _, p := range ex.next {
-				if p == c.id {
-					sawClient = true
-				}
+	// The honest-path oracles are guards against a vacuous harness, not part of the (pure safety) statement;
+	// they must stay sound under the clock-jump fault:
+	//  - the server enforces the challenge lifetime between the legs of the handshake and its token TTL between
+	//    issuing the token and the request proper; if its own clock jumped by at least the shorter of the two
+	//    inside this call, this call is excused. Jumps of the client side excuse nothing (the client enforces
+	//    its TTL only when it looks the token up at the start of a call);
+	//  - what the client stored for the hostname at the end of an excused call is a product of the fault (e.g.
+	//    the empty "token" of the observation in the header), so every later call of the same client to the
+	//    same hostname is excused as long as the client still holds that entry: it does when the call opens
+	//    without a fresh challenge (it relied on the stored entry); a call that opens with a fresh challenge
+	//    shows the entry is gone (dropped by the client's own TTL), and an untampered, un-jumped call that
+	//    handshakes successfully replaces it — both end the excuse.
+	// All safety oracles (server clause in deliver, client clause above) stay on for excused calls.
+	limit := challengeTTL
+	if s.ttl < limit {
+		limit = s.ttl
+	}
+	late := ctx.srvJumped >= limit
+	openedFresh, handshook := false, false
+	for i, a := range ctx.reqs {
+		if _, ok := parseHdr(a).get("challenge-server"); ok {
+			handshook = true
+			if i == 0 {
+				openedFresh = true
 			}
 		}
+	}
+	if openedFresh {
+		delete(c.faulted, host)
+	}
+	sawClient := false
+	for _, ex := range ctx.exs {
+		for _, p := range ex.next {
+			if p == c.id {
+				sawClient = true
+			}
+		}
+	}
+	// the client opened the call with the scheme and no parameter at all — the "token" it stored after an
+	// earlier handshake whose last response carried no bearer — and got nowhere: observation, see header
+	emptyStored := len(ctx.reqs) > 0 && strings.Contains(ctx.reqs[0], scheme) && len(parseHdr(ctx.reqs[0]).ps) == 0
+	if mode != 2 && emptyStored && (err != nil || status != http.StatusOK || !sawClient) {
+		w.o.Probe("observed-client-locked-out-by-empty-stored-token")
+		w.o.Logf("  observation: %s sent \"Authorization: %s \" (its stored entry for %q), status %d, err=%v, Next never saw it", c.name, scheme, host, status, err != nil)
+	}
+	if clean && ctx.srvJumped > 0 {
+		if late {
+			w.o.Probe("honest-call-server-clock-jumped-past-lifetime")
+		} else if err == nil && status == http.StatusOK {
+			w.o.Probe("honest-call-server-clock-jumped-within-lifetime-ok")
+		}
+	}
+	switch {
+	case clean && late:
+		if err == nil && sid != s.id {
+			w.o.Violate("C19/honest/wrong-server-id", "untampered call %s->%s Host %q (flow %s, server clock jumped %v inside the call) reported server %s", c.name, s.name, host, flow, ctx.srvJumped, w.name(sid))
+		}
+		c.faulted[host] = true
+		clean = false
+	case clean && c.faulted[host]:
+		w.o.Probe("honest-call-excused-client-holds-entry-of-jumped-call")
+		if err == nil && handshook && status == http.StatusOK {
+			delete(c.faulted, host) // the entry now comes from this call's own successful handshake
+		}
+		clean = false
+	}
+	if clean {
 		switch {
 		case err != nil:
-			w.o.Violate("C19/honest/call-failed", "untampered call %s->%s Host %q (mode=%s, flow %s, t=%v, server TTL %v, client TTL %v) failed: %s", c.name, s.name, host, modeName, flow, simrt.Now(), s.ttl, c.ttl, scrub(err.Error()))
+			w.o.Violate("C19/honest/call-failed", "untampered call %s->%s Host %q (mode=%s, flow %s, t=%v, server TTL %v, client TTL %v, jumps inside the call %v) failed: %s", c.name, s.name, host, modeName, flow, simrt.Now(), s.ttl, c.ttl, ctx.notes, scrub(err.Error()))
 		case sid != s.id:
 			w.o.Violate("C19/honest/wrong-server-id", "untampered call %s->%s Host %q (flow %s) reported server %s", c.name, s.name, host, flow, w.name(sid))
 		case status != http.StatusOK:
-			w.o.Violate("C19/honest/status", "untampered call %s->%s Host %q (flow %s) ended with status %d", c.name, s.name, host, flow, status)
+			w.o.Violate("C19/honest/status", "untampered call %s->%s Host %q (flow %s) ended with status %d (server TTL %v, client TTL %v, jumps inside the call %v)", c.name, s.name, host, flow, status, s.ttl, c.ttl, ctx.notes)
 		case !sawClient:
 			w.o.Violate("C19/honest/client-not-reported", "untampered call %s->%s Host %q (flow %s) succeeded but Next never saw %s", c.name, s.name, host, flow, c.name)
 		default:
@@ -896,6 +1134,18 @@ func (w *world) RoundTrip(req *http.Request) (*http.Response, error) {
 		w.auths = append(w.auths, &authRec{cli: c, srv: ctx.srv, host: req.Host, value: authz})
 	}
 
+	if ctx.timeFaults && rt >= 2 {
+		// between two round trips of one call: a party is suspended / its wall clock steps forward
+		switch w.g.Weighted(3, 1, 1) {
+		case 1:
+			d := w.jumpAmount(ctx.srv, c)
+			ctx.notes = append(ctx.notes, fmt.Sprintf("before-rt%d:%s", rt, w.jump(ctx.srv.idx, d, fmt.Sprintf("inside the call, before round trip %d", rt))))
+			ctx.srvJumped += d
+		case 2:
+			d := w.jumpAmount(ctx.srv, c)
+			ctx.notes = append(ctx.notes, fmt.Sprintf("before-rt%d:%s", rt, w.jump(len(w.srv), d, fmt.Sprintf("inside the call, before round trip %d", rt))))
+		}
+	}
 	dst, host, sent := ctx.srv, req.Host, authz
 	tag := fmt.Sprintf("%s.%d", c.name, rt)
 	malAnswers := false
@@ -1130,14 +1380,14 @@ func (w *world) pickTarget(s *serverSim, host string) (*serverSim, string, strin
 }
 
 // timing sleeps to an instant around the expiry of a credential. 0 = now.
-func (w *world) timing(at time.Time, ttl time.Duration, what string) string {
+func (w *world) timing(issuer *serverSim, at time.Time, ttl time.Duration, what string) string {
 	k := w.g.Weighted(6, 2, 2, 1, 1, 1)
 	if k == 0 {
 		return "now"
 	}
 	delta := []time.Duration{0, -time.Second, time.Second, -time.Nanosecond, time.Nanosecond, 0}[k]
 	name := []string{"", "expiry-1s", "expiry+1s", "expiry-1ns", "expiry+1ns", "expiry"}[k]
-	d := time.Until(at.Add(ttl).Add(delta))
+	d := at.Add(ttl).Add(delta).Sub(issuer.now()) // on the clock of the server that stamped the credential
 	if d <= 0 {
 		return "now(" + what + " " + name + " already passed)"
 	}
@@ -1182,7 +1432,7 @@ func (w *world) atkReplayToken() {
 	h := bearerHdr(t.b64)
 	mut := w.mutate(h, false, 0)
 	s, host, tgt := w.pickTarget(t.srv, t.host)
-	when := w.timing(t.at, s.ttl, "token")
+	when := w.timing(t.srv, t.at, s.ttl, "token")
 	ex := w.send(s, host, h, fmt.Sprintf("replay-token #%d(of %s@%s) mut=%s target=%s when=%s", i, w.name(t.peer), t.srv.name, mut, tgt, when), nil)
 	w.bookReplay(ex, "token", mut, tgt, when)
 }
@@ -1197,17 +1447,17 @@ func (w *world) atkReplaySig() {
 	h := parseHdr(a.value)
 	mut := w.mutate(h, a.cli.varLenSig(), 0)
 	s, host, tgt := w.pickTarget(a.srv, a.host)
-	at := time.Now()
+	issuer, at := a.srv, a.srv.now()
 	if ob, ok := parseHdr(a.value).get("opaque"); ok {
 		if raw, err := base64.URLEncoding.DecodeString(ob); err == nil {
 			for _, sv := range w.srv {
 				if c := sv.chals[string(raw)]; c != nil {
-					at = c.at
+					issuer, at = sv, c.at
 				}
 			}
 		}
 	}
-	when := w.timing(at, challengeTTL, "challenge")
+	when := w.timing(issuer, at, challengeTTL, "challenge")
 	ex := w.send(s, host, h, fmt.Sprintf("replay-sig #%d(of %s for %s/%s) mut=%s target=%s when=%s", i, a.cli.name, a.srv.name, a.host, mut, tgt, when), nil)
 	w.bookReplay(ex, "challenge", mut, tgt, when)
 }
@@ -1339,7 +1589,7 @@ func (w *world) atkMallorySigned() {
 	if g.Chance(1, 4) {
 		mut = w.mutate(h, w.mal.varLenSig(), 1)
 	}
-	when := w.timing(c.at, challengeTTL, "challenge")
+	when := w.timing(c.srv, c.at, challengeTTL, "challenge")
 	ex := w.send(s, host, h, fmt.Sprintf("mallory-signed chal=%s variant=%s mut=%s when=%s", src, vname, mut, when), nil)
 	if src == "fresh" && v == 0 && mut == "none" && (when == "now" || strings.HasSuffix(when, "-1s") || strings.HasSuffix(when, "-1ns")) {
 		// honest-path sanity for a spec-conforming third-party client; also proves that the reference
@@ -1465,17 +1715,22 @@ func (w *world) atkForgedState() {
 	}
 }
 
+// editFields never fails: whether a blob that was damaged in transit still parses depends on random bytes,
+// and the history must not — an unparsable blob is forged on unedited (the request is sent all the same).
 func editFields(raw []byte, f func(map[string]any)) ([]byte, bool) {
 	if len(raw) < 32 {
-		return nil, false
+		return raw, true
 	}
 	m := map[string]any{}
 	if err := json.Unmarshal(raw[32:], &m); err != nil {
-		return nil, false
+		return raw[32:], true
 	}
 	f(m)
 	b, err := json.Marshal(m)
-	return b, err == nil
+	if err != nil {
+		return raw[32:], true
+	}
+	return b, true
 }
 
 func hmacSum(key, data []byte) []byte {
